@@ -381,6 +381,10 @@ func (d *cnDriver) genProofs(h int64, nonceBump map[string]uint64) []cnTxMeta {
 			continue // (now and then a node proves twice: same proof, accepted without effect)
 		}
 		early := h <= d.vrf.submitAfter
+		if n.cfg.ComputeOnly > 0 && i < n.cfg.Validators && i != 1 && hash.NewFromBytes([]byte(fmt.Sprintf("sit|%d|%d|%d", n.cfg.Seed, d.vrf.epoch, i)))[0]%3 == 0 {
+			continue // with compute-only nodes around, a validator sits every third epoch out entirely: its entity may then have a
+			// proving compute node and no electable validator
+		}
 		if lazy {
 			// ... while a node whose registration has lapsed (still on record, not electable) is eager to prove
 			isLapsed := false
@@ -403,7 +407,7 @@ func (d *cnDriver) genProofs(h int64, nonceBump map[string]uint64) []cnTxMeta {
 		case early && x > 1:
 			continue
 		case x == 0 && i != 1:
-			continue // this node sits the epoch out
+			continue // this node sits the block out
 		case x == 2:
 			add(v.name, v.name, "badpi", d.vrf.epoch)
 		case x == 3:
